@@ -138,7 +138,7 @@ func (eng *Engine) initStubs() {
 		if t.IsConst() {
 			return e.mkStr(fmt.Sprint(t.SConst()))
 		}
-		return e.mkStr("<itoa>")
+		return e.formatSymInt(t, true) // (was a placeholder: a seeded change used Itoa to format data)
 	}
 
 	// time
